@@ -209,7 +209,7 @@ Section Node.
         exact (Hhit st T W wb s0 p c fname sa skw wl co w2 r2 fnode subs' ret' rr HSS HIb HKb Hprogb Hcondsb El Eh Hr). }
       destruct Et as [[wr [reused [Er Et]]]|[e [Er _]]].
       2:{ exfalso. destruct (Hreuse _ _ Er) as (o2 & T' & X & _). discriminate. }
-      destruct (Hreuse _ _ Er) as (o2 & T' & X & Hrec & HS2 & Hp2 & Hf2 & Ho2). subst reused.
+      destruct (Hreuse _ _ Er) as (o2 & T' & X & Hrec & HS2 & Hp2 & Hf2 & Ho2). inversion X; subst reused. clear X.
       inversion Et; subst wt rt. inversion Es; subst wS rS.
       inversion E1; subst w1 r o. inversion E2; subst s1 r' o'.
       assert (Hret: op_ret o2 = ret').
@@ -227,8 +227,8 @@ Section Node.
       subst rt. inversion Es; subst wS rS.
       (* the memo when the function starts *)
       destruct (bf_setup_None _ _ _ _ _ _ _ Es0 HI) as (HIt & Hpt & Hnft & Hnot).
-      unfold bf_rebuild in E1.
-      destruct (fn p sa skw (bf_invoke_world p fname sa skw wt)) as [w3 [res subs3]] eqn:Ef.
+      unfold bf_rebuild in E1. cbv beta in E1.
+      destruct (run (fn p sa skw) (Some p) [] (bf_invoke_world p fname sa skw wt)) as [w3 [res subs3]] eqn:Ef.
       destruct (core_run (fn p sa skw) (Some p) None [] (CoreLaws3.core_start s0 p fname sa skw)) as [s2 [[res' pend2] bsubs]] eqn:Ec.
       destruct (core_finish s2 p c fname sa skw bsubs res' pend2) as [[s3 out] o3] eqn:Efin.
       inversion E2; subst s1 r' o'.
@@ -254,7 +254,8 @@ Section Node.
           + assert (Hne: y <> p) by (intro; subst; contradiction).
             unfold isdir. rewrite (Hf2 y Hne), (sv_fs _ _ Sl), (Hfb y Hy). apply (c4_nodir _ _ _ _ HC y Hy).
         - intros t Et0. inversion Et0; subst t. split; [exact Hpt|exact Hnot]. }
-      destruct (Hbody sa skw (p :: T) (p :: W) _ _ w3 res subs3 s2 res' pend2 bsubs Holdt HS0 HC0 Ef Ec)
+      destruct (Hbody sa skw (p :: T) (p :: W) (bf_invoke_world p fname sa skw wt) (CoreLaws3.core_start s0 p fname sa skw)
+                      w3 res subs3 s2 res' pend2 bsubs Holdt HS0 HC0 Ef Ec)
         as (T3 & W3 & HS3 & HC3 & Hfr3 & Eres & Hsubs3 & HW3 & Ho3).
       subst res'. destruct HS3 as [HS3c [HI3 [HK3 HWb3]]].
       destruct (Hfin st T3 W3 w3 s2 p c fname sa skw res subs3 bsubs pend2 w1 r o s3 out o3 HS3c HI3 HC3
